@@ -76,6 +76,7 @@ func C36(e *simkern.Env) {
 		if reason == simkern.StopDone {
 			sim.ProbeN("pointer-batches-resolved-by-client", shm.ShmResolved)
 			sim.ProbeN("batches-sent-through-shm-by-client", shm.ShmSentCount)
+			sim.ProbeN("pointer-batches-held-until-end-of-stream", shm.ShmDeferred)
 			if shm.ShmErr != nil {
 				e.Violate("pointer-not-resolvable", "shm-session", "%v", shm.ShmErr)
 			}
@@ -159,6 +160,6 @@ func init() {
 		Quick: 500, Thorough: 40000,
 		Warm: c36Warm,
 		FaultKinds: []string{"shm-advertised", "pointer-without-advertisement", "read-fragmentation", "write-delay", "client-cancel", "client-write-ahead"},
-		Assumptions: []string{"comparison is semantic (values, schema, user metadata, logs, terminating error) and ignores vgi_rpc.* bookkeeping keys such as shm_source"},
+		Assumptions: []string{"the client keeps the segment's documented one-party-at-a-time (lockstep) contract: on a stream with write-ahead inputs it resolves and frees the pointer batches it received only after the end-of-stream marker, and ships its own batches through the segment only on lockstep turns", "comparison is semantic (values, schema, user metadata, logs, terminating error) and ignores vgi_rpc.* bookkeeping keys such as shm_source"},
 	}
 }
